@@ -409,6 +409,12 @@ pub fn build_state(sv: &Value, max: &Value, inputs: &Value, limit: usize) -> Res
 
 /// ... declaring the inputs in the `rotation`-th rotation of their name order.
 pub fn build_state_ordered(sv: &Value, max: &Value, inputs: &Value, limit: usize, rotation: usize) -> Result<PushState, String> {
+    build_state_ordered_decoy(sv, max, inputs, limit, rotation, false)
+}
+
+/// `decoy`: every name is first bound to ANOTHER value and then to its real one (a later binding
+/// of a name replaces the earlier one)
+pub fn build_state_ordered_decoy(sv: &Value, max: &Value, inputs: &Value, limit: usize, rotation: usize, decoy: bool) -> Result<PushState, String> {
     let m = |k: &str| max[k].as_u64().expect("max") as usize;
     let exec: Vec<PushProgram> = arr(&sv["exec"]).iter().map(item_from_json).collect();
     let ints: Vec<i64> = arr(&sv["int"]).iter().map(|v| phi_inv(i(v))).collect();
@@ -436,6 +442,16 @@ pub fn build_state_ordered(sv: &Value, max: &Value, inputs: &Value, limit: usize
             names.rotate_left(k);
             if rotation >= names.len() {
                 names.reverse();
+            }
+        }
+        if decoy {
+            for (name, lit) in &names {
+                b = match s(&lit["f"]) {
+                    "int" => b.with_int_input(name, phi_inv(i(&lit["v"])).wrapping_add(12_345)),
+                    "flt" => b.with_float_input(name, OrderedFloat(psi_inv(&lit["v"]) + 77.0)),
+                    "bool" => b.with_bool_input(name, !lit["v"].as_bool().expect("bool")),
+                    _ => return Err(format!("unsupported input literal {lit}")),
+                };
             }
         }
         for (name, lit) in names {
